@@ -10,7 +10,8 @@ UNIVERSES = {"std": ("BaseStd", "FPStd", "DPStd", "std"),
              "mix": ("BaseStd", "FPMix", "DPMix", "std"),
              "empty": ("BaseEmpty", "FPStd", "DPStd", "empty"),
              "two": ("BaseTwo", "FPStd", "DPStd", "two"),
-             "conf": ("BaseStd", "FPConf", "DPConf", "std")}
+             "conf": ("BaseStd", "FPConf", "DPConf", "std"),
+             "out": ("BaseOut", "FPOut", "DPOut", "out")}
 
 
 def generate(ctx, name, sides, maxops, gaps, universe="std", filt="all", simulate=None):
@@ -57,6 +58,9 @@ def with_flavors(cases, flavors):
 
 def slice_cases(cases, limit, seed):
     """Deterministic slice for the quick tier: a seed-dependent sample of a family that the thorough tier runs in full."""
+    import os
+    if limit is not None and os.environ.get("VERIF_DEV_SCALE"):      # development aid only (never set by the manifest)
+        limit = max(20, int(limit * float(os.environ["VERIF_DEV_SCALE"])))
     if limit is None or len(cases) <= limit:
         return cases, True
     rng = random.Random(seed)
@@ -68,9 +72,9 @@ def nontrivial(trace):
     return any(e["ev"] == "ECall" and e.get("res") == 1 and not e.get("noop") for e in trace)
 
 
-def run_family(ctx, cases, what, clauses, extra_sig=None):
+def run_family(ctx, cases, what, clauses, extra_sig=None, accept=None):
     traces = sysfam.run_cases(ctx, cases)
-    viols, bad = sysfam.judge(ctx, cases, traces, what, clauses=clauses, extra_sig=extra_sig)
+    viols, bad = sysfam.judge(ctx, cases, traces, what, clauses=clauses, extra_sig=extra_sig, accept=accept)
     distinct = {json.dumps([c["flavor"], c["tokens"]]) for c, t in zip(cases, traces) if nontrivial(t)}
     ctx.count(evaluations=len(cases), nontrivial=len(distinct))
     if cases:
